@@ -29,6 +29,16 @@ def h_roundtrip(ctx):
     elif form == "plain+mask":
         src = X
         comp = dtools.to_compressed(src, order=order, mask=M.copy())
+    elif form == "quantity+mask":
+        src = fm.UNITS.Quantity(X, "m")
+        try:
+            comp = dtools.to_compressed(src, order=order, mask=M.copy())
+        except (symx.PathAbort, symx.SymbolicLeak, symx.HarnessError):
+            raise
+        except Exception as e:  # pylint: disable=broad-except
+            ctx.fail("compress-quantified-plain-data-with-mask-fails", {"sig": type(e).__name__, "error": str(e)[:120]})
+            return
+        ctx.check(dtools.is_quantified(comp) and comp.units == fm.UNITS.Unit("m"), "compressed-lost-units")
     else:
         src = fm.UNITS.Quantity(np.ma.array(X, mask=M.copy()), "m")
         comp = dtools.to_compressed(src, order=order)
@@ -176,8 +186,8 @@ def families(tier):
     fams = []
     shapes = [(4,), (2, 3), (2, 2, 2)] if q else [(5,), (1,), (2, 3), (3, 2), (4, 2), (2, 2, 2), (3, 2, 2), (1, 3, 2)]
     for shape in shapes:
-        for form in ("masked", "plain+mask", "quantity"):
-            if q and form == "quantity" and shape != (2, 3):
+        for form in ("masked", "plain+mask", "quantity", "quantity+mask"):
+            if q and form.startswith("quantity") and shape != (2, 3):
                 continue
             fams.append(dict(name=f"roundtrip:{'x'.join(map(str, shape))}:{form}", ref="vf.props.c18:h_roundtrip",
                              params={"shape": list(shape), "form": form},
